@@ -139,9 +139,57 @@ func (t *Term) rewrite(f func(*Term) *Term) *Term {
 	return u
 }
 
+// reassoc folds (X ± c1) ± c2 into X ± c for integer constants, so that
+// (n + 8 - 1) / 8 and (n + 7) / 8 are one term (integer addition is modular:
+// re-association is exact).
+func reassoc(t *Term) *Term {
+	if t.Op != "binop" || (t.S != "+" && t.S != "-") || len(t.Args) != 2 {
+		return t
+	}
+	c2, ok := smallConst(t.Args[1])
+	if !ok {
+		return t
+	}
+	in := t.Args[0]
+	if in.Op != "binop" || (in.S != "+" && in.S != "-") || len(in.Args) != 2 {
+		return t
+	}
+	c1, ok := smallConst(in.Args[1])
+	if !ok {
+		return t
+	}
+	if in.S == "-" {
+		c1 = -c1
+	}
+	if t.S == "-" {
+		c2 = -c2
+	}
+	c := c1 + c2
+	switch {
+	case c == 0:
+		return in.Args[0]
+	case c > 0:
+		return &Term{Op: "binop", S: "+", Args: []*Term{in.Args[0], T("const", strconv.FormatInt(c, 10))}}
+	}
+	return &Term{Op: "binop", S: "-", Args: []*Term{in.Args[0], T("const", strconv.FormatInt(-c, 10))}}
+}
+
+func smallConst(t *Term) (int64, bool) {
+	if t == nil || t.Op != "const" {
+		return 0, false
+	}
+	n, err := strconv.ParseInt(t.S, 10, 64)
+	if err != nil || n > 1<<31 || n < -(1<<31) {
+		return 0, false
+	}
+	return n, true
+}
+
 // normalize applies the local algebra: projections of composites/updates.
 func normalize(t *Term) *Term {
 	switch t.Op {
+	case "binop":
+		return reassoc(t)
 	case "call":
 		// an interface method call on a value whose concrete (in-package)
 		// type is known: the method itself
@@ -254,7 +302,12 @@ func projectField(base *Term, f string) *Term {
 		// field(load(p), f) == load(field(p, f))
 		return &Term{Op: "load", Args: []*Term{{Op: "field", S: f, Args: []*Term{base.Args[0]}}}}
 	case "gate":
-		return &Term{Op: "gate", Args: []*Term{base.Args[0], projectField(base.Args[1], f), projectField(base.Args[2], f)}}
+		a, b := projectField(base.Args[1], f), projectField(base.Args[2], f)
+		if a.eq(b) {
+			// the projected part does not depend on the gate's condition
+			return a
+		}
+		return &Term{Op: "gate", Args: []*Term{base.Args[0], a, b}}
 	}
 	return &Term{Op: "field", S: f, Args: []*Term{base}}
 }
@@ -475,7 +528,7 @@ func (e *termEngine) compute(v ssa.Value) *Term {
 		}
 		return &Term{Op: "unop", S: v.Op.String(), Args: []*Term{e.of(v.X)}}
 	case *ssa.BinOp:
-		return &Term{Op: "binop", S: v.Op.String(), Args: []*Term{e.of(v.X), e.of(v.Y)}}
+		return reassoc(&Term{Op: "binop", S: v.Op.String(), Args: []*Term{e.of(v.X), e.of(v.Y)}})
 	case *ssa.ChangeType:
 		return e.of(v.X)
 	case *ssa.ChangeInterface:
@@ -805,6 +858,9 @@ func normGate(c, vt, vf *Term) *Term {
 		break
 	}
 	c = normCond(c)
+	if vt.eq(vf) {
+		return vt
+	}
 	return &Term{Op: "gate", Args: []*Term{c, vt, vf}}
 }
 
